@@ -446,7 +446,9 @@ def build_inspection_payload(
         "config_id": compute_pipeline_config_id(semantic_pairs),
     }
 
-    if run_space:
+    # A declared block counts even when it is empty (``run_space: {}``): the run
+    # command launches it with every default and records its spec id.
+    if run_space is not None:
         try:
             spec_id = _compute_run_space_spec_id(run_space)
         except Exception:
